@@ -95,8 +95,26 @@ class C06(Prop):
                         malformed = True
                 elif op.startswith("cv.sensor"):
                     sens[a["id"]] = a
+                elif op.startswith("cv.evalpair"):
+                    # two overlapping evaluations of one curve object: each must be the curve's function of the sensor
+                    # state, i.e. the value the sequential evaluation just before gave (the case has no PID member)
+                    if malformed or a["id"] not in vals:
+                        continue
+                    want = vals[a["id"]]
+                    got = kv(g)
+                    for side in ("a", "b"):
+                        r_ = got.get(side, "")
+                        if r_ != f"i{want}":
+                            out.append(viol(f"curve {a['id']} evaluated by two controllers at once: evaluation {side} returned {r_}, "
+                                            f"the curve's value for this sensor state is {want}", cops, cgo, upto=i,
+                                            detail={"kind": cfgs[a["id"]]["kind"], "concurrent": True}))
+                            break
+                    else:
+                        continue
+                    break
                 elif op.startswith("cv.eval"):
                     if malformed or not g.startswith("i"):
+                        vals.pop(a["id"], None)
                         continue
                     v = int(g.split()[0][1:])
                     c = cfgs.get(a["id"])
